@@ -38,6 +38,7 @@ type C05Session struct {
 }
 
 type C05Case struct {
+	BadLogonFirst bool         `json:"bad_logon_first"` // acceptor: a Logon with a disallowed EncryptMethod precedes the good one
 	Cfg           rig.Cfg      `json:"cfg"`
 	N             int          `json:"n"`
 	StoreDelays   []int64      `json:"store_delays"`
@@ -62,6 +63,7 @@ func genC05(t *rapid.T) *C05Case {
 	for i := rapid.IntRange(1, 4).Draw(t, "nHandlerDelays"); i > 0; i-- {
 		c.HandlerDelays = append(c.HandlerDelays, rapid.SampledFrom(delayChoices).Draw(t, "handlerDelay"))
 	}
+	c.BadLogonFirst = role == "acceptor" && rapid.IntRange(0, 3).Draw(t, "badLogonFirst") == 0
 	c.WriteDelay = 0 // a virtual sleep inside Write would stop the clock while senders queue on the session mutex
 	ns := rapid.SampledFrom([]int{1, 1, 1, 2, 3}).Draw(t, "nSessions")
 	for s := 0; s < ns; s++ {
@@ -163,6 +165,11 @@ func checkC05(c *C05Case, rec *evid.Rec) (vs []pbt.Violation) {
 				}
 				ir.H.HandleOutgoing(simplefixgo.AllMsgTypes, slowHandler)
 				cur = s
+			}
+			if c.BadLogonFirst && si == 0 {
+				conn.Feed((&rig.InMsg{Type: rig.TLogon, Seq: next(), Fields: []rig.Tok{rig.F(rig.TagEncryptMethod, "7"),
+					rig.F(rig.TagHeartBtInt, fmt.Sprint(c.N))}}).Bytes())
+				synctest.Wait()
 			}
 			logon := &rig.InMsg{Type: rig.TLogon, Seq: next(), Fields: []rig.Tok{rig.F(rig.TagEncryptMethod, "0"),
 				rig.F(rig.TagHeartBtInt, fmt.Sprint(c.N)), rig.F(rig.TagUsername, "alice"), rig.F(rig.TagPassword, "secret")}}
@@ -405,6 +412,9 @@ func checkC05(c *C05Case, rec *evid.Rec) (vs []pbt.Violation) {
 	rec.Case(evid.FPs(fmt.Sprint(c.Cfg.Role, c.N, c.Cfg.Buf, c.StoreDelays, c.HandlerDelays, c.Sessions)), nontrivial)
 	rec.Hist("role:" + c.Cfg.Role)
 	rec.Hist(fmt.Sprintf("sessions=%d", len(c.Sessions)))
+	if c.BadLogonFirst {
+		rec.Hist("reject-before-logon-on-the-wire")
+	}
 	rec.Hist(fmt.Sprintf("buf=%d", c.Cfg.Buf))
 	if overlap {
 		rec.Hist("overlapping-send-calls")
